@@ -121,12 +121,17 @@ StrPattern(c, nbytes) == OctetsToBits([i \in 1..nbytes |-> StrOctet(IF c >= 5 /\
    field that an operator has WIDENED (w0 < w) takes a sixth class, the all-ones pattern of the table width -
    a value that is not missing in the field as it stands *)
 Cls6(idx, s) == ClsOf(idx, s, 6)
+(* numeric fields of 54 bits and more: the third class is 2^(w-2) + 1 instead of 2^(w-1) - a value beyond 2^53 with its
+   lowest bit set, which no detour through a double survives, and one that still leaves a compressed column next to
+   0 or 1 encodable (a range of 2^63 and more has no difference width) *)
+NumPattern(c, w) == IF c = 2 /\ w >= 54 THEN <<0, 1>> \o Zeros(w - 3) \o <<1>> ELSE ClassPattern(c, w)
 Pattern(t, w, idx, s, w0) ==
     IF t = "str" THEN StrPattern(ClsOf(idx, s, 7), w \div 8)
     ELSE IF t = "ref"
          THEN LET c == Cls(idx, 1) IN ClassPattern(IF c = 2 THEN 1 ELSE c, w)   \* no negative zero; same for all subsets
     ELSE IF t = "num" /\ w0 >= 1 /\ w0 < w
-         THEN LET c == Cls6(idx, s) IN IF c = 5 THEN Zeros(w - w0) \o Ones(w0) ELSE ClassPattern(c, w)
+         THEN LET c == Cls6(idx, s) IN IF c = 5 THEN Zeros(w - w0) \o Ones(w0) ELSE NumPattern(c, w)
+    ELSE IF t = "num" THEN NumPattern(Cls(idx, s), w)
     ELSE ClassPattern(Cls(idx, s), w)
 
 (* "all" value mode: every bit pattern of a numeric / code field (use small widths), and for
